@@ -200,6 +200,7 @@ CONTRACTS = [
     dict(
         name="dsw.operation.number_to_bit#str", function="dsw.operation.number_to_bit", variant_of="dsw.operation.number_to_bit", n_loops=2,
         params={"decimal_number": "str", "bit_length": "nat"},
+        candidates={"bit_length": list(range(0, 13)) + [16, 31, 32, 33, 63, 64, 65, 100, 129, 200]},
         requires={"canonical-number": "canon(decimal_number)"},
         returns="list_int",
         ensures={
@@ -245,6 +246,7 @@ CONTRACTS = [
     dict(
         name="dsw.operation.number_to_bit#int", function="dsw.operation.number_to_bit", variant_of="dsw.operation.number_to_bit", n_loops=2,
         params={"decimal_number": "nat", "bit_length": "nat"},
+        candidates={"bit_length": list(range(0, 13)) + [16, 31, 32, 33, 63, 64, 65, 100, 129, 200]},
         returns="list_int",
         ensures={
             "length": "len(result) == bit_length",
@@ -309,6 +311,7 @@ CONTRACTS = [
     dict(
         name="dsw.operation.number_to_dna#str", function="dsw.operation.number_to_dna", variant_of="dsw.operation.number_to_dna", n_loops=2,
         params={"decimal_number": "str", "dna_length": "nat"},
+        candidates={"dna_length": list(range(0, 13)) + [16, 31, 32, 33, 63, 64, 65, 100, 129, 200]},
         requires={"canonical-number": "canon(decimal_number)"},
         types={"one_array": "list_char"},
         returns="str",
@@ -356,6 +359,7 @@ CONTRACTS = [
     dict(
         name="dsw.operation.number_to_dna#int", function="dsw.operation.number_to_dna", variant_of="dsw.operation.number_to_dna", n_loops=2,
         params={"decimal_number": "nat", "dna_length": "nat"},
+        candidates={"dna_length": list(range(0, 13)) + [16, 31, 32, 33, 63, 64, 65, 100, 129, 200]},
         requires={},
         types={"one_array": "list_char"},
         returns="str",
